@@ -24,7 +24,9 @@
       inside the harness's 1e-12·n³), `gth_rounded_same_break`; structural reason:
       `gth_subtraction_free` (no `Sub`/`Neg` in the model's typing). Round 5: the same for EVERY
       evaluation order of the sums and dot products (`gthSolveAnyOrder_accuracy`, `sum_any_tree`,
-      `dot_fma`, `gthSolveNp_accuracy` for the use_jit=False twin).
+      `dot_fma`, `gthSolveNp_accuracy` for the use_jit=False twin). Growth round: the clause for the
+      rows of `stationary_distributions` themselves (`stationaryDists_rounded_same_classes`,
+      `stationaryDists_accuracy`, `stationaryDists_accuracy_double`).
   * the driver's two-phase program = the recursion the proofs are about: `gthRaw_eq_gthRec`.
   * "exactly one row per recurrent class": `reachMat_correct`, `recClasses_exact`,
       `stationaryDists_one_row_per_class`, `closedB_holds` (round 2).
@@ -41,6 +43,7 @@ import QEProofs.Lemmas.C02Round
 import QEProofs.Lemmas.C02Acc
 import QEProofs.Lemmas.C02Order
 import QEProofs.Lemmas.C02OrderInst
+import QEProofs.Lemmas.C02StatAcc
 namespace QE.C02
 open Finset
 
@@ -436,7 +439,71 @@ theorem gthSolveNp_accuracy (R : RoundedOps K) (n : ℕ) (hn : 1 ≤ n) (A : M K
   rw [gthSolveNp_eq_npOrd' n hn (liftM R n A)]
   exact gthSolveO_rel_err R n hn (npOrd n) (npOrd_spec R n) A hA i
 
+/-! ## T3 (growth round) — the accuracy clause for `MarkovChain.stationary_distributions` itself
+
+  Rounds 3/5 proved the accuracy of `gth_solve`.  The property states it for every ROW of
+  `stationary_distributions` (reducible chains: one `gth_solve` per recurrent class, scattered into a
+  zero row).  Here the model's own `stationaryDists` is run at rounded arithmetic (`liftM`: the input
+  is read exactly) and compared with its exact run. -/
+
+/-- **The rounded run finds the same recurrent classes** (the class computation only tests entries
+    against 0, which rounding cannot change): same list, same order, for every matrix. -/
+theorem stationaryDists_rounded_same_classes (R : RoundedOps K) (n : ℕ) (P : M K) :
+    (stationaryDists n (liftM R n P)).map (·.1) = (stationaryDists n P).map (·.1) := by
+  unfold stationaryDists
+  rw [List.map_map, List.map_map, recClasses_liftM R n P]
+  rfl
+
+/-- **Accuracy of every row of `stationary_distributions`.** For every matrix with non-negative
+    entries and every recurrent class `C` of the model: the pair `(C, row)` is in the rounded and in
+    the exact result, and every component of the rounded row is within `(1+u)^{E(|C|)} − 1`
+    (relative) of the exact row — zeros outside `C` exactly, components inside `C` however small. -/
+theorem stationaryDists_accuracy (R : RoundedOps K) (n : ℕ) (P : M K)
+    (hnn : ∀ i j, i < n → j < n → 0 ≤ P.get i j)
+    (C : List ℕ) (hC : C ∈ recClasses n (reachMat n (adjB P))) :
+    (C, scatter n C (gthSolve C.length (restrict (liftM R n P) C))) ∈ stationaryDists n (liftM R n P)
+    ∧ (C, scatter n C (gthSolve C.length (restrict P C))) ∈ stationaryDists n P
+    ∧ ∀ i, |((scatter n C (gthSolve C.length (restrict (liftM R n P) C))).getD i 0).val
+              - (scatter n C (gthSolve C.length (restrict P C))).getD i 0|
+            ≤ ((1 + R.u) ^ errBound C.length - 1)
+              * (scatter n C (gthSolve C.length (restrict P C))).getD i 0 :=
+  (stationaryDists_apx R n P hnn).2 C hC
+
+/-- `E` is monotone, so `E(n)` bounds every class of an `n`-state chain -/
+theorem errBound_monotone {m n : ℕ} (h : m ≤ n) : errBound m ≤ errBound n := errBound_mono h
+
+/-- **Double precision, at most 8 states**: every component of every row of
+    `stationary_distributions` is within `1e-12·n³` (relative) of the exact row. -/
+theorem stationaryDists_accuracy_double (R : RoundedOps K) (hR : R.u ≤ 1 / 2 ^ 53) (n : ℕ) (hn8 : n ≤ 8)
+    (P : M K) (hnn : ∀ i j, i < n → j < n → 0 ≤ P.get i j)
+    (C : List ℕ) (hC : C ∈ recClasses n (reachMat n (adjB P))) (i : ℕ) :
+    |((scatter n C (gthSolve C.length (restrict (liftM R n P) C))).getD i 0).val
+        - (scatter n C (gthSolve C.length (restrict P C))).getD i 0|
+      ≤ ((n : K) ^ 3 / 10 ^ 12) * (scatter n C (gthSolve C.length (restrict P C))).getD i 0 :=
+  stationaryDists_apx_double R hR n hn8 P hnn C hC i
+
+/-- **Support in rounded arithmetic.** For a stochastic matrix and every recurrent class `C`, the
+    row computed with rounded operations is strictly positive exactly on `C` and exactly 0 outside
+    it (no underflow in the standard model): "supported exactly on its recurrent class" holds for
+    the floating-point result, not only for the exact one. -/
+theorem stationaryDists_rounded_support (R : RoundedOps K) (n : ℕ) (P : M K)
+    (hnn : ∀ i j, i < n → j < n → 0 ≤ P.get i j)
+    (hrow : ∀ i, i < n → ∑ j ∈ range n, P.get i j = 1)
+    (C : List ℕ) (hC : C ∈ recClasses n (reachMat n (adjB P))) (i : ℕ) :
+    (0 < ((scatter n C (gthSolve C.length (restrict (liftM R n P) C))).getD i 0).val ↔ i ∈ C)
+    ∧ (i ∉ C → ((scatter n C (gthSolve C.length (restrict (liftM R n P) C))).getD i 0).val = 0) :=
+  class_row_support_rounded R n P hnn hrow C hC i
+
 end field
+
+/-- **What `MarkovChain.__init__` accepts, as the model decides it** (`stat` answers
+    `ERR:ValueError` otherwise): every entry `≥ 0` and every row sum within `1e-8 + 1e-5` of 1
+    (`np.allclose`'s `atol + rtol·1`), in exact arithmetic. -/
+theorem validStochastic_iff (n : ℕ) (P : M ℚ) :
+    validStochastic n P = true ↔
+      ∀ i, i < n → (∀ j, j < n → 0 ≤ P.get i j)
+        ∧ |sumUpTo (fun j => P.get i j) n - 1| ≤ 1 / 100000000 + 1 / 100000 :=
+  validStochastic_iff' n P
 
 /-- the driver's Numba-order program is the instance `seqOrd` of `gthSolveO` (any scalar type) -/
 theorem gthSolve_eq_seqOrd {α : Type} [Zero α] [One α] [Add α] [Mul α] [Div α] [LE α] [DecidableLE α]
@@ -525,6 +592,23 @@ example : (gthSolveO (treeOrd exTree) 3 (liftM (RoundedOps.biased (1/8 : ℚ) (b
 /-- … and with exact arithmetic the same -/
 example : (gthSolveO (treeOrd exTree) 3 (liftM (RoundedOps.exact ℚ) 3 exP)).map (·.val) = [8/19, 5/19, 6/19] := by
   decide +kernel
+
+/-- non-vacuity of `stationaryDists_accuracy` on the reducible chain `exR` with the lossy arithmetic
+    (`u = 1/8`): the class `[2,3]` is in `recClasses`, the rounded row differs from the exact one
+    (1/3, 2/3 on the class), the classes are the same, and zeros outside the class are exact -/
+example : ([2, 3] : List ℕ) ∈ recClasses 4 (reachMat 4 (adjB exR)) := by decide +kernel
+example : (stationaryDists 4 (liftM (RoundedOps.biased (1/8 : ℚ) (by norm_num)) 4 exR)).map (·.1)
+    = [[0], [2, 3]] := by decide +kernel
+example : ((stationaryDists 4 (liftM (RoundedOps.biased (1/8 : ℚ) (by norm_num)) 4 exR)).map
+      (fun Cr => Cr.2.map (·.val))).getD 1 [] ≠ [0, 0, 1/3, 2/3] := by decide +kernel
+example : (((stationaryDists 4 (liftM (RoundedOps.biased (1/8 : ℚ) (by norm_num)) 4 exR)).map
+      (fun Cr => Cr.2.map (·.val))).getD 1 []).take 2 = [0, 0] := by decide +kernel
+example : errBound 2 ≤ errBound 4 := by decide
+/-- `exR` is stochastic (hypothesis of `stationaryDists_rounded_support`) and accepted; a matrix with
+    a negative entry or a row sum 5/4 is rejected -/
+example : validStochastic 4 exR = true := by decide +kernel
+example : validStochastic 2 (M.ofRows [[1/2, 1/2], [-1/4, 5/4]] : M ℚ) = false := by decide +kernel
+example : validStochastic 2 (M.ofRows [[1/2, 3/4], [0, 1]] : M ℚ) = false := by decide +kernel
 
 /-- hypotheses of `scatter_invariant` on the class `{2,3}` of `exR` -/
 example : ([2, 3] : List ℕ).Nodup ∧ (∀ c ∈ ([2, 3] : List ℕ), c < 4)
